@@ -25,17 +25,18 @@ func (addr) String() string  { return "mock:0" }
 // Transport records every call; optional failure injection and a scheduler
 // yield before each operation.
 type Transport struct {
-	mu        sync.Mutex
-	Log       []TEvent
-	Writes    int // Write+Writev calls so far
-	Flushes   int
-	FailWrite int // fail the k-th Write/Writev (1-based), 0 = never
-	FailFlush int
-	Closed    int
-	Reader    *ScriptReader
-	ReadGate  chan struct{} // if non-nil, Read blocks until the gate is closed, then reports EOF
-	Yield     func(point string)
-	OnEvent   func(kind string) // called (outside the lock) after each accepted write / close
+	mu          sync.Mutex
+	Log         []TEvent
+	Writes      int // Write+Writev calls so far
+	Flushes     int
+	FailWrite   int // fail the k-th Write/Writev (1-based), 0 = never
+	FailFlush   int
+	Closed      int
+	Reader      *ScriptReader
+	ReadGate    chan struct{} // if non-nil, Read blocks until the gate is closed, then reports EOF
+	SplitWritev bool          // Writev hands the buffers to the wire one by one, yielding in between (needs Yield)
+	Yield       func(point string)
+	OnEvent     func(kind string) // called (outside the lock) after each accepted write / close
 }
 
 func (t *Transport) yield(p string) {
@@ -73,6 +74,36 @@ func (t *Transport) Write(p []byte) (int, error) {
 
 func (t *Transport) Writev(bs net.Buffers) (int64, error) {
 	t.yield("t.writev")
+	if t.SplitWritev && len(bs) > 1 {
+		// a connection whose vectored write is NOT one atomic operation (any non-TCP net.Conn, a buffered writer): one
+		// buffer after the other, other goroutines may run in between.  Continuations are logged as "writev+".
+		var n int64
+		for i, b := range bs {
+			if i > 0 {
+				t.yield("t.writev.part")
+			}
+			t.mu.Lock()
+			if i == 0 {
+				t.Writes++
+			}
+			if t.Closed > 0 || (i == 0 && t.Writes == t.FailWrite) {
+				t.Log = append(t.Log, TEvent{Kind: "writev", Err: true})
+				t.mu.Unlock()
+				return n, ErrTransport
+			}
+			kind := "writev"
+			if i > 0 {
+				kind = "writev+"
+			}
+			t.Log = append(t.Log, TEvent{Kind: kind, Bufs: [][]byte{append([]byte(nil), b...)}, Bytes: len(b)})
+			t.mu.Unlock()
+			n += int64(len(b))
+		}
+		if t.OnEvent != nil {
+			t.OnEvent("write")
+		}
+		return n, nil
+	}
 	t.mu.Lock()
 	defer t.mu.Unlock()
 	t.Writes++
